@@ -380,6 +380,9 @@ class ExprMixin:
             return None
         if isinstance(a, Sym) and isinstance(b, Sym) and a.uid == b.uid:
             return True
+        if isinstance(a, Sym) and isinstance(b, Sym) and a.origin and b.origin and \
+                a.origin[0] in ("dictkey", "member") and b.origin[0] == a.origin[0]:
+            return a.key() == b.key()       # tokens of an abstract table are pairwise distinct
         if isinstance(a, ClassV) and isinstance(b, ClassV):
             return a.cls.qualname == b.cls.qualname
         if isinstance(a, Ext) and isinstance(b, Ext):
